@@ -972,8 +972,9 @@ func c11TwoModules(res *eng.Result, ss *sigSet) {
 		mainDep, impDep := bdep&1 != 0, bdep&2 != 0
 		for _, em := range exprs {
 			for _, ei := range exprs {
-				text := `module f { namespace "urn:f"; prefix f; import dep { prefix d; } revision 0; ` + feat(mainDep) + `leaf x { if-feature "` + joinExpr(em) + `"; type string; } leaf keep { type string; } }`
-				mods := map[string]string{"dep": `module dep { namespace "urn:dep"; prefix d; revision 0; ` + feat(impDep) + `leaf x { if-feature "` + joinExpr(ei) + `"; type string; } leaf keep { type string; } }`}
+				// the import also lends a grouping whose member is guarded by the import's own features
+				text := `module f { namespace "urn:f"; prefix f; import dep { prefix d; } revision 0; ` + feat(mainDep) + `leaf x { if-feature "` + joinExpr(em) + `"; type string; } leaf keep { type string; } container u { uses d:g; } }`
+				mods := map[string]string{"dep": `module dep { namespace "urn:dep"; prefix d; revision 0; ` + feat(impDep) + `leaf x { if-feature "` + joinExpr(ei) + `"; type string; } leaf keep { type string; } grouping g { leaf gx { if-feature "` + joinExpr(ei) + `"; type string; } leaf gkeep { type string; } } }`}
 				rm, ri := c11Parse(em), c11Parse(ei)
 				for _, on := range c11Assignments() {
 					for _, cfg := range []string{"allow-list", "deny-list"} {
@@ -1009,6 +1010,13 @@ func c11TwoModules(res *eng.Result, ss *sigSet) {
 								ss.add(site+"/import-not-loaded", what)
 							} else if present, _ := c11ProbePath(imp.Module(), "x"); present != ri.eval(eff(impDep)) {
 								ss.add(site+fmt.Sprintf("/import-leaf-present-%v-want-%v", present, !present), what)
+							}
+							// names in the grouping are the features of the module the grouping is written in
+							if present, _ := c11ProbePath(m, "u/gx"); present != ri.eval(eff(impDep)) {
+								ss.add(site+fmt.Sprintf("/leaf-of-imported-grouping-present-%v-want-%v", present, !present), what)
+							}
+							if present, _ := c11ProbePath(m, "u/gkeep"); !present {
+								ss.add(site+"/unguarded-leaf-of-imported-grouping-lost", what)
 							}
 						}
 					}
